@@ -26,6 +26,7 @@ import (
 	"time"
 
 	"github.com/tmpim/casket/caskethttp/httpserver"
+	"github.com/tmpim/casket/verifhook"
 )
 
 // Proxy represents a middleware instance that can proxy requests.
@@ -191,6 +192,8 @@ func (p Proxy) ServeHTTP(w http.ResponseWriter, r *http.Request) (int, error) {
 		if rr, ok := w.(*httpserver.ResponseRecorder); ok && rr.Replacer != nil {
 			rr.Replacer.Set("upstream", host.Name)
 		}
+
+		verifhook.Point("proxy.afterSelect")
 
 		proxy := host.ReverseProxy
 
